@@ -1,14 +1,14 @@
-(** C05, idempotence part 3b: clause 2 (repeated Get) is never reported on
-    the model's own observations with the model's own write indication, and
-    clause 3 is never reported for a repeated FindMissing of at most one
-    digest: the inductive invariant relating the monitor's bookkeeping
-    ([t_gets], [t_prev]) to the model state. *)
+(** C05, idempotence part 3b: clauses 2 (repeated Get) and 3 (repeated
+    FindMissing with at most one digest present) are never reported on the
+    model's own observations with the model's own write indication: the
+    inductive invariant relating the monitor's bookkeeping ([t_gets],
+    [t_prev]) to the model state. *)
 From Coq Require Import List NArith ZArith Bool Arith Lia Relations.
 From Coq Require Import ZifyN ZifyNat ZifyBool.
 From BBS Require Import Common.Sx Common.SxFactsMA Store.Model Store.Wf Store.WfTids Run.RStore Run.R01 Run.R05.
 From BBS Require Import Store.P05Cnt Store.P05Frame Store.P05Ops Store.P05Step Store.P05Surv Store.P05Mon
                         Store.P05Inv Store.P05Main Store.P05Touch.
-From BBS Require Import Store.P05WInv Store.P05WRep Store.P05WMonA.
+From BBS Require Import Store.P05WInv Store.P05WRep Store.P05WMonA Store.P05WEnd Store.P05WFm Store.P05WFm2.
 Import ListNotations.
 Open Scope Z_scope.
 
@@ -59,28 +59,24 @@ Definition GetsOK (seen : list nat) (s : state) (gl : list (nat * ((nat * nat) *
   (forall tid oi pb t, assoc gl tid = Some (oi, pb) -> thr_get (s_threads s) tid = Some t -> GI s oi pb t) /\
   (forall tid, assoc gl tid <> None -> In tid seen).
 
-(** every digest of the call is settled or not found *)
-Definition FMI (s : state) (ds : list (nat * nat)) : Prop :=
-  forall o i, In (o, i) ds -> settled w s o i \/ least_specific s (lookup_keys w o i) = None.
-
 Definition PrevInv (s : state) (p : option (op * bool * Z)) : Prop :=
   match p with
   | Some (OGetOpen tid o i, true, pbo) =>
       pbo <= Z.of_nat (s_pushbacks s) /\ (Z.of_nat (s_pushbacks s) <= pbo -> settled w s o i)
   | Some (OGetOpen tid o i, false, wz) => 0 <= wz -> wz = 0 /\ pending_refresh s tid = false
-  | Some (OFindMissing ds, true, _) => (length ds <= 1)%nat -> FMI s ds
+  | Some (OFindMissing ds, true, _) =>
+      FMI w s ds \/ (exists pos o i, nth_error ds pos = Some (o, i) /\ LSF w s o i)
   | _ => True
   end.
-
-Variable SG : Prop.   (* "every FindMissing of the schedule has at most one digest" *)
 
 Record PI (seen : list nat) (s : state) (m : m05) : Prop := {
   pi_kinv : kinv c (proj s);
   pi_hinv : c_hier c = true -> hinv s;
+  pi_einv : einv s;
   pi_gets : GetsOK seen s (t_gets m);
   pi_prev : PrevInv s (t_prev m);
   pi_no2 : ~ In 2 (t_viol m);
-  pi_no3 : SG -> ~ In 3 (t_viol m) }.
+  pi_no3 : ~ In 3 (t_viol m) }.
 
 Lemma GI_frame s s1 oi pb t :
   creach c (proj s) (proj s1) -> incl (s_index s) (s_index s1) -> (pb <= s_pushbacks s)%nat ->
@@ -158,7 +154,7 @@ Proof.
 Qed.
 
 (** ---- FindMissing ---- *)
-Lemma fmi_quiet s ds r s' : FMI s ds -> find_missing w s ds = (r, s') -> quiet s s'.
+Lemma fmi_quiet s ds r s' : FMI w s ds -> find_missing w s ds = (r, s') -> quiet s s'.
 Proof.
   intros HF H. unfold find_missing in H. eapply settled_fm_phase2; [|exact H].
   intros pos o i Hin. apply filter_In in Hin. destruct Hin as [Hin HF2].
@@ -166,61 +162,42 @@ Proof.
   destruct (HF o i Hn) as [ST|LN]; [exact ST|]. cbn in HF2. rewrite LN in HF2. discriminate.
 Qed.
 
-Lemma fm_single_fmi s ds s1 mm :
-  kinv c (proj s) -> (c_hier c = true -> hinv s) ->
-  step w s (OFindMissing ds) = (s1, Missing 0 mm) -> (length ds <= 1)%nat -> FMI s1 ds.
+Lemma app_eq_len {T} : forall (a a' b b' : list T), length a = length a' -> a ++ b = a' ++ b' -> a = a' /\ b = b'.
 Proof.
-  intros K HH ES LE.
-  destruct ds as [|[o i] [|d ds']]; [intros o i []| |cbn in LE; lia].
-  intros o' i' [E|[]]. inversion E; subst o' i'.
-  destruct mm as [|p mm'].
-  - left. eapply find_missing_settles; eauto.
-  - right.
-    destruct (step_fm w s _ s1 _ ES) as [[X _]|[(e & FE & X)|(m & FM & X)]]; [discriminate| |].
-    + inversion X.
-    + inversion X as [X']. unfold find_missing in FM. cbn [enumerate filter map] in FM.
-      destruct (least_specific s (lookup_keys w o i)) as [[k l]|] eqn:LS.
-      * exfalso. cbn [filter map fst] in FM.
-        destruct (needs_refresh s l).
-        -- cbn [fm_phase2] in FM. destruct (fm_refresh_one w s o i) as [r1 s2] eqn:E1.
-           apply fm_refresh_one_spec in E1; [|exact K]. destruct E1 as (_ & HM & _).
-           destruct r1 as [[|]|e]; [| |discriminate].
-           ++ inversion FM; subst m. discriminate.
-           ++ specialize (HM eq_refl). congruence.
-        -- cbn [fm_phase2] in FM. inversion FM; subst m. discriminate.
-      * cbn [filter map fst fm_phase2] in FM. inversion FM; subst. exact LS.
+  induction a as [|x a IH]; intros [|x' a'] b b' L E; cbn in *; try discriminate; [auto|].
+  inversion E; subst. destruct (IH a' b b') as [-> ->]; auto.
 Qed.
-
-Lemma digests_eq (ds ds' : list (nat * nat)) :
-  sx_eqb (of_nats (map fst ds ++ map snd ds)) (of_nats (map fst ds' ++ map snd ds')) = true ->
-  (length ds <= 1)%nat -> ds = ds'.
+Lemma pairs_eq (ds ds' : list (nat * nat)) : map fst ds = map fst ds' -> map snd ds = map snd ds' -> ds = ds'.
 Proof.
-  intros H LE. apply sx_eqb_eq in H. unfold of_nats in H. inversion H as [H1]. clear H.
+  revert ds'. induction ds as [|[a b] t IH]; intros [|[a' b'] t'] E1 E2; cbn in *; try discriminate; [reflexivity|].
+  inversion E1; inversion E2; subst. f_equal. apply IH; auto.
+Qed.
+Lemma digests_eq (ds ds' : list (nat * nat)) :
+  sx_eqb (of_nats (map fst ds ++ map snd ds)) (of_nats (map fst ds' ++ map snd ds')) = true -> ds = ds'.
+Proof.
+  intros H. apply sx_eqb_eq in H. unfold of_nats in H. inversion H as [H1]. clear H.
   assert (INJ : forall a b : list nat, map of_nat a = map of_nat b -> a = b).
   { induction a as [|x a IH]; intros [|y b] E; try discriminate; [reflexivity|].
     cbn in E. inversion E as [[E1 E2]]. apply Nat2Z.inj in E1. subst. f_equal. apply IH, E2. }
   apply INJ in H1.
-  assert (LN : length ds = length ds').
-  { apply (f_equal (@length nat)) in H1. rewrite !app_length, !map_length in H1. lia. }
-  destruct ds as [|[a b] [|d t]]; destruct ds' as [|[a' b'] [|d' t']]; cbn in LN, LE; try lia; try reflexivity.
-  cbn in H1. inversion H1; subst. reflexivity.
+  assert (LN : length (map fst ds) = length (map fst ds')).
+  { apply (f_equal (@length nat)) in H1. rewrite !app_length, !map_length in H1. rewrite !map_length. lia. }
+  destruct (app_eq_len _ _ _ _ LN H1) as [E1 E2]. apply pairs_eq; auto.
 Qed.
 
 (** ---- the step ---- *)
-Definition fm_le1 (e : op) : Prop := match e with OFindMissing ds => (length ds <= 1)%nat | _ => True end.
-
 Lemma PI_step seen s m e :
   PI seen s m ->
   (forall tid, start_tid e = Some tid -> ~ In tid seen) ->
-  (SG -> fm_le1 e) ->
   PI (match start_tid e with Some t => t :: seen | None => seen end) (fst (step w s e))
      (m05w_step w m (e, (s, fst (step w s e), snd (step w s e)))).
 Proof.
-  intros [K HH G P N2 N3] FR SGe.
+  intros [K HH EI G P N2 N3] FR.
   destruct (step w s e) as [s1 mo] eqn:ES. cbn [fst snd].
   pose proof (step_frame w s e s1 mo K ES) as SFr.
   assert (K1 : kinv c (proj s1)) by (eapply creach_kinv; [exact (proj1 SFr)|exact K]).
   assert (HH1 : c_hier c = true -> hinv s1) by (intros Hh; eapply step_hinv; eauto).
+  assert (EI1 : einv s1) by (eapply step_einv; eauto).
   pose proof (creach_mono _ _ _ (proj1 SFr)) as MO. unfold kmono in MO. cbn in MO.
   set (seen' := match start_tid e with Some t => t :: seen | None => seen end).
   assert (IS : incl seen seen') by (unfold seen'; destruct (start_tid e); [apply incl_tl|]; apply incl_refl).
@@ -245,8 +222,8 @@ Proof.
       * exact I.
       * destruct (Z.eqb code cNotFound); [|exact N2]. cbn [t_viol m_viol]. intros H.
         apply in_app_or in H. destruct H as [H|H]; [exact (N2 H)|]. apply loss_vals in H. lia.
-      * intros S. destruct (Z.eqb code cNotFound); [|exact (N3 S)]. cbn [t_viol m_viol]. intros H.
-        apply in_app_or in H. destruct H as [H|H]; [exact (N3 S H)|]. apply loss_vals in H. lia.
+      * destruct (Z.eqb code cNotFound); [|exact N3]. cbn [t_viol m_viol]. intros H.
+        apply in_app_or in H. destruct H as [H|H]; [exact (N3 H)|]. apply loss_vals in H. lia.
     + (* Parked *)
       destruct (step_getopen w s tid o i s1 Parked ES) as [[X _]|[(e0 & _ & X)|(t & s0 & GO & -> & _)]];
         try discriminate.
@@ -281,8 +258,8 @@ Proof.
       * exact I.
       * destruct (Z.eqb code cNotFound); [|exact N2]. cbn [t_viol m_viol]. intros H.
         apply in_app_or in H. destruct H as [H|H]; [exact (N2 H)|]. apply loss_vals in H. lia.
-      * intros S. destruct (Z.eqb code cNotFound); [|exact (N3 S)]. cbn [t_viol m_viol]. intros H.
-        apply in_app_or in H. destruct H as [H|H]; [exact (N3 S H)|]. apply loss_vals in H. lia.
+      * destruct (Z.eqb code cNotFound); [|exact N3]. cbn [t_viol m_viol]. intros H.
+        apply in_app_or in H. destruct H as [H|H]; [exact (N3 H)|]. apply loss_vals in H. lia.
     + (* Bad *)
       change (Z.eqb 0 cNotFound) with false. cbv iota.
       constructor; auto; cbn [t_gets t_prev t_viol m_setprev]. exact I.
@@ -294,7 +271,7 @@ Proof.
     assert (GU : GetsOK seen' s1 (unassoc (t_gets m) tid)) by (apply GetsOK_unassoc; exact G1).
     (* the clause-2 site *)
     match goal with |- PI _ _ (if _ then m_setprev (m_late_get (m_touch ?M2 _ _) _ _) _ else _) => set (m2 := M2) end.
-    assert (V2 : t_gets m2 = unassoc (t_gets m) tid /\ ~ In 2 (t_viol m2) /\ (SG -> ~ In 3 (t_viol m2))).
+    assert (V2 : t_gets m2 = unassoc (t_gets m) tid /\ ~ In 2 (t_viol m2) /\ ~ In 3 (t_viol m2)).
     { unfold m2. destruct (t_prev m) as [[[pe pb0] pw]|] eqn:EP; [|cbn; auto].
       destruct pe; try (cbn; auto; fail). destruct pb0; [cbn; auto|].
       match goal with |- context [if ?C then _ else _] => destruct C eqn:CC end; [|cbn; auto].
@@ -304,7 +281,7 @@ Proof.
       destruct (pw <? 0) eqn:AG.
       - split.
         + intros H. apply in_app_or in H. destruct H as [H|[H|[]]]; [exact (N2 H)|discriminate].
-        + intros S H. apply in_app_or in H. destruct H as [H|[H|[]]]; [exact (N3 S H)|discriminate].
+        + intros H. apply in_app_or in H. destruct H as [H|[H|[]]]; [exact (N3 H)|discriminate].
       - exfalso. apply Z.ltb_ge in AG. try rewrite EP in P. cbn [PrevInv] in P. destruct (P AG) as [-> PR].
         destruct mo as [cd bs| |cd dd|]; try discriminate.
         apply Z.ltb_lt in C4. unfold wbit in C4. cbn [wrote] in C4. rewrite PR in C4. cbn in C4. lia. }
@@ -344,7 +321,7 @@ Proof.
       destruct (existsb (Nat.eqb pos) mm); [auto|]. unfold m_touch_fm.
       destruct (Nat.ltb 1 (length ds)); cbn; auto. }
     destruct (FOLD ll m2) as [FG FV].
-    assert (V2 : t_gets m2 = t_gets m /\ ~ In 2 (t_viol m2) /\ (SG -> ~ In 3 (t_viol m2))).
+    assert (V2 : t_gets m2 = t_gets m /\ ~ In 2 (t_viol m2) /\ ~ In 3 (t_viol m2)).
     { unfold m2.
       set (ls := flat_map (fun '(pos, oi) => if existsb (Nat.eqb pos) mm then loss_clauses w m oi (s_pushbacks s1) else [])
                           (enumerate 0 ds)).
@@ -353,8 +330,8 @@ Proof.
         destruct (existsb (Nat.eqb pos) mm); [eapply loss_vals; eauto|destruct Hz]. }
       assert (B2 : ~ In 2 (t_viol (m_viol m ls))).
       { cbn. intros H. apply in_app_or in H. destruct H as [H|H]; [exact (N2 H)|]. apply LS in H. lia. }
-      assert (B3 : SG -> ~ In 3 (t_viol (m_viol m ls))).
-      { cbn. intros S H. apply in_app_or in H. destruct H as [H|H]; [exact (N3 S H)|]. apply LS in H. lia. }
+      assert (B3 : ~ In 3 (t_viol (m_viol m ls))).
+      { cbn. intros H. apply in_app_or in H. destruct H as [H|H]; [exact (N3 H)|]. apply LS in H. lia. }
       destruct (t_prev m) as [[[pe pb0] pw]|] eqn:EP; [|cbn; auto].
       destruct pe; try (cbn; auto; fail). destruct pb0; [|cbn; auto].
       match goal with |- context [if ?C then _ else _] => destruct C eqn:CC end; [|cbn; auto].
@@ -362,19 +339,30 @@ Proof.
       cbn [t_gets t_viol m_viol]. split; [reflexivity|]. split.
       - intros H. apply in_app_or in H. destruct H as [H|[H|[]]]; [exact (B2 H)|].
         destruct (Nat.leb (length ds - length mm) 1); discriminate.
-      - intros S H. exfalso.
-        pose proof (SGe S) as LE. cbn [fm_le1] in LE.
-        pose proof (digests_eq ds ds0 C1 LE) as <-.
-        try rewrite EP in P. cbn [PrevInv] in P. specialize (P LE).
+      - intros H. apply in_app_or in H. destruct H as [H|[H|[]]]; [exact (B3 H)|].
+        exfalso.
+        pose proof (digests_eq ds ds0 C1) as <-.
+        try rewrite EP in P. cbn [PrevInv] in P.
+        apply Z.ltb_lt in C2. unfold wbit in C2.
+        destruct (wrote w s (OFindMissing ds) s1) eqn:WR; [|lia]. cbn [wrote] in WR.
+        assert (NS : sigs s1 <> sigs s).
+        { intros E. rewrite (alloc_grew_false _ _ E) in WR. discriminate. }
         destruct (step_fm w s ds s1 _ ES) as [[X _]|[(e0 & FE & X)|(m0 & FM & X)]]; [discriminate| |].
-        + apply fmi_quiet in FE; [|exact P]. apply Z.ltb_lt in C2. unfold wbit in C2.
-          rewrite (wrote_fm_quiet w s ds s1 FE) in C2. lia.
-        + apply fmi_quiet in FM; [|exact P]. apply Z.ltb_lt in C2. unfold wbit in C2.
-          rewrite (wrote_fm_quiet w s ds s1 FM) in C2. lia. }
+        + inversion X; subst. apply find_missing_err in FE; [|exact K]. apply FE. reflexivity.
+        + inversion X; subst mm.
+          destruct P as [P|(pos & o & i & PN & PL)].
+          * apply fmi_quiet in FM; [|exact P]. apply NS, FM.
+          * pose proof (repeat_call_count w s ds m0 s1 pos o i (conj K (conj EI HH)) PN PL FM NS) as CNT.
+            rewrite length_sort_nat in H.
+            assert (L1 : Nat.leb (length ds - length m0) 1 = false) by (apply Nat.leb_gt; lia).
+            rewrite L1 in H. discriminate. }
     destruct V2 as (VG & V2 & V3).
     constructor; auto; cbn [t_gets t_prev t_viol m_setprev].
     + rewrite FG, VG. exact G1.
-    + cbn [PrevInv]. intros LE. exact (fm_single_fmi s ds s1 mm K HH ES LE).
+    + cbn [PrevInv].
+      destruct (step_fm w s ds s1 _ ES) as [[X _]|[(e0 & FE & X)|(m0 & FM & X)]]; [discriminate| |].
+      * inversion X; subst. apply find_missing_err in FE; [|exact K]. exfalso. apply FE. reflexivity.
+      * exact (find_missing_leaves w s ds m0 s1 (conj K (conj EI HH)) FM).
     + rewrite FV. exact V2.
     + rewrite FV. exact V3.
   - (* OCorrupt *)
@@ -386,27 +374,26 @@ Proof.
   constructor; cbn.
   - apply kinv_init.
   - intros _. apply hinv_init.
+  - apply einv_init.
   - split; [|split]; intros; try discriminate. cbn in H. congruence.
   - exact I.
   - intros [].
-  - intros _ [].
+  - intros [].
 Qed.
 
 Lemma PI_run : forall es seen s m,
   PI seen s m -> wf_tids_from seen es = true ->
-  (SG -> forall e, In e es -> fm_le1 e) ->
   let m' := fold_left (m05w_step w) (xs_of w s es) m in
-  ~ In 2 (t_viol m') /\ (SG -> ~ In 3 (t_viol m')).
+  ~ In 2 (t_viol m') /\ ~ In 3 (t_viol m').
 Proof.
-  induction es as [|e t IH]; intros seen s m HP WT SGs; cbv zeta.
+  induction es as [|e t IH]; intros seen s m HP WT; cbv zeta.
   - split; [apply (pi_no2 _ _ _ HP)|apply (pi_no3 _ _ _ HP)].
   - rewrite xs_of_cons. cbn [fold_left]. cbn [wf_tids_from] in WT.
     assert (FR : forall tid, start_tid e = Some tid -> ~ In tid seen).
     { intros tid E. rewrite E in WT. apply andb_true_iff in WT. destruct WT as [WT _].
       apply negb_true_iff in WT. intros HI. apply (proj2 (existsb_eqb_in tid seen)) in HI. congruence. }
-    pose proof (PI_step seen s m e HP FR (fun S => SGs S e (or_introl eq_refl))) as H1.
-    eapply IH; [exact H1| |].
-    + destruct (start_tid e); [apply andb_true_iff in WT; apply WT|exact WT].
-    + intros S e' Hin. apply (SGs S). right. exact Hin.
+    pose proof (PI_step seen s m e HP FR) as H1.
+    eapply IH; [exact H1|].
+    destruct (start_tid e); [apply andb_true_iff in WT; apply WT|exact WT].
 Qed.
 End PI.
